@@ -199,15 +199,19 @@ func c17broker(c *core.Ctx) {
 	if c.Thorough() {
 		scs = append(scs, scen{2, 1}, scen{0, 3})
 	}
-	bound := 1
+	bound, dev := 1, 1
 	if c.Thorough() {
-		bound = 2
+		bound, dev = 2, 2
 	}
 	for _, sc := range scs {
 		if c.Expired() || c.HasViolation() {
 			return
 		}
 		sc := sc
+		dev := dev
+		if sc.each == 1 && dev < 2 {
+			dev = 2
+		}
 		name := fmt.Sprintf("broker 2 publishers x %d messages at QoS %d, 2 subscribers", sc.each, sc.qos)
 		body := func() {
 			h := NewHarness(Config{})
@@ -297,7 +301,7 @@ func c17broker(c *core.Ctx) {
 			vsched.Logf("ok")
 		}
 		// one scenario, all workers: the schedule tree is split among them
-		st := c.RunSched(explore.SchedOpts{Name: name, Bound: bound, Cache: true, UseMark: true, Body: body, MaxPoints: 100000, Check: schedCheck, Shard: c.Shard, NShards: c.NShards},
+		st := c.RunSched(explore.SchedOpts{Name: name, Bound: bound, Cache: true, UseMark: true, Body: body, MaxPoints: 100000, Check: schedCheck, Shard: c.Shard, NShards: c.NShards, DevBound: dev},
 			func(v *explore.Violation) string { return "C17 " + name + " :: " + violClass(v.Message) })
 		if st != nil {
 			c.Rep.Sample(map[string]interface{}{"scenario": name, "bound": st.Bound, "executions": st.Executions, "states": st.States})
@@ -307,7 +311,7 @@ func c17broker(c *core.Ctx) {
 
 // C17: whole packets, per-publisher order.
 func C17(c *core.Ctx) {
-	c.Rep.Bound = "SCHED: (narrow) 2-3 goroutines publishing 1-2 messages each through one service peer whose out ring was pre-rolled so that a packet wraps, all interleavings for one message per goroutine, <= 2 (quick) / 3 (thorough) preemptions otherwise; (broker) 2 raw publishers x 1-3 messages at QoS 0/1/2 to 2 subscribers through the real broker, all interleavings with <= 1 (quick) / 2 (thorough) preemptions after a default-schedule set-up"
+	c.Rep.Bound = "SCHED: (narrow) 2-3 goroutines publishing 1-2 messages each through one service peer whose out ring was pre-rolled so that a packet wraps, all interleavings for one message per goroutine, <= 2 (quick) / 3 (thorough) preemptions otherwise; (broker) 2 raw publishers x 1-3 messages at QoS 0/1/2 to 2 subscribers through the real broker, every schedule that deviates from the default (run-until-blocked, lowest thread first) schedule at <= 1 (quick) / 2 (thorough) scheduling points, after a default-schedule set-up"
 	c.Rep.Rule = "oracle at quiescence: every connection's byte stream parses under the strict reference codec into whole packets, each message arrives exactly once with intact topic and payload, and the sequence numbers of each publisher arrive in order at each subscriber"
 	c17narrow(c)
 	if c.HasViolation() {
